@@ -403,7 +403,9 @@ class PrivacyEngine:
         )
 
         sample_rate = 1 / len(data_loader)
-        expected_batch_size = int(len(data_loader.dataset) * sample_rate)
+        # integer part of dataset size * sample_rate, in exact arithmetic: the product of the
+        # floats falls below batch_size for many loader lengths (49, 98, 103, ...)
+        expected_batch_size = len(data_loader.dataset) // len(data_loader)
 
         # expected_batch_size is the *per worker* batch size
         if distributed:
